@@ -13,7 +13,7 @@ from .absval import (
 BUILTIN_NAMES = {
     "len", "abs", "chr", "ord", "str", "int", "bool", "all", "any", "sorted", "set", "list", "tuple", "dict", "range",
     "enumerate", "zip", "isinstance", "min", "max", "print", "getattr", "setattr", "hasattr", "cast", "partial",
-    "assert_never", "repr", "reversed", "sum", "frozenset", "iter", "next", "type", "field", "replace", "filter", "map",
+    "assert_never", "repr", "reversed", "sum", "frozenset", "iter", "next", "type", "field", "replace", "filter", "map", "slice",
 }
 
 DIGITS = frozenset("0123456789")
@@ -67,7 +67,18 @@ class FrozenDict(dict):
         return hash(tuple(sorted((repr(k), repr(v)) for k, v in self.items())))
 
 
-def iter_values(I, v: Any, st) -> Optional[list]:
+TRUNCATED = "truncated"  # HObj.cls of the materialised prefix of an infinite iterator (itertools.count and what is mapped / filtered from it)
+LAZY_PREFIX = 200
+
+
+def is_truncated(v: Any, st) -> bool:
+    return isinstance(v, Ref) and st.obj(v).kind == "list" and st.obj(v).cls == TRUNCATED
+
+
+def iter_values(I, v: Any, st, allow_truncated: bool = False) -> Optional[list]:
+    if is_truncated(v, st) and not allow_truncated:
+        # only consumers that stop early (next, takewhile, islice, zip with something finite) may look at the prefix of an infinite iterator
+        st.note("an infinite iterator is consumed by something that does not stop early")
     if isinstance(v, str):
         return list(v)
     if isinstance(v, (tuple, list, frozenset)):
@@ -542,6 +553,9 @@ def _as_dict(v: Any, st) -> Optional[dict]:
 def index_(I, base: Any, idx: Any, st, node=None) -> list:
     from .absint import Raised
 
+    if isinstance(idx, slice):  # x[slice(a, b)]  ==  x[a:b]
+        return slice_(I, base, (idx.start, idx.stop, idx.step), st, node)
+
     if isinstance(base, Opaque) and base.cls in ("ext:typing.Literal", "ext:typing_extensions.Literal"):
         # typing.Literal[a, b, Literal[c]] -- a value listing its (flattened) constant arguments
         flat: list = []
@@ -663,6 +677,13 @@ def setattr_(I, obj: Any, name: str, val: Any, st) -> list:
 
 
 def setitem_(I, obj: Any, idx: Any, val: Any, st) -> list:
+    if isinstance(idx, slice):  # x[slice(a, b)] = ys  ==  x[a:b] = ys
+        items = iter_values(I, val, st)
+        if isinstance(obj, Ref) and st.obj(obj).kind == "list" and not st.obj(obj).setlike and items is not None and idx.step is None:
+            st.obj(obj).items[idx.start:idx.stop] = list(items)
+        else:
+            st.note("slice store on abstract list / bounds")
+        return [(None, st)]
     if isinstance(obj, Ref):
         h = st.obj(obj)
         if h.kind == "dict":
@@ -1272,6 +1293,13 @@ def b_len(I, args, kwargs, st, node):
     return [(Unknown("len"), st)]
 
 
+def b_slice(I, args, kwargs, st, node):
+    if 1 <= len(args) <= 3 and not kwargs and all(a is None or (isinstance(a, int) and not isinstance(a, bool)) for a in args):
+        return [(slice(*args), st)]
+    st.note("slice() with abstract bounds")
+    return [(Unknown("slice"), st)]
+
+
 def b_abs(I, args, kwargs, st, node):
     v = args[0]
     if isinstance(v, int):
@@ -1508,8 +1536,13 @@ def b_enumerate(I, args, kwargs, st, node):
 
 
 def b_zip(I, args, kwargs, st, node):
-    its = [iter_values(I, a, st) for a in args]
+    its = [iter_values(I, a, st, allow_truncated=True) for a in args]
     if any(i is None for i in its):
+        st.note("zip over abstract iterable")
+        return [(Unknown("zip"), st)]
+    finite = [len(i) for a, i in zip(args, its) if not is_truncated(a, st)]
+    if not finite or any(is_truncated(a, st) and len(i) < min(finite) for a, i in zip(args, its)):
+        st.note("zip of infinite iterators only / beyond the modelled prefix")
         return [(Unknown("zip"), st)]
     return [(tuple(zip(*its)), st)]
 
@@ -1570,6 +1603,12 @@ def b_max(I, args, kwargs, st, node):
 
 
 def b_sum(I, args, kwargs, st, node):
+    items = iter_values(I, args[0], st) if args else None
+    start = args[1] if len(args) > 1 else kwargs.get("start", 0)
+    if items is not None and isinstance(start, (int, float)) and all(isinstance(x, (int, float)) for x in items) \
+            and not (isinstance(args[0], Ref) and st.obj(args[0]).setlike):
+        return [(sum(items, start), st)]
+    st.note("sum over abstract values")
     return [(Unknown("sum"), st)]
 
 
@@ -1625,9 +1664,12 @@ def b_iter(I, args, kwargs, st, node):
 def b_next(I, args, kwargs, st, node):
     from .absint import Raised
 
-    items = iter_values(I, args[0], st) if args else None
+    items = iter_values(I, args[0], st, allow_truncated=True) if args else None
     if items is None:
         st.note("next() of an abstract iterator")
+        return [(Unknown("next"), st)]
+    if not items and is_truncated(args[0], st):
+        st.note(f"no element among the first {LAZY_PREFIX} of an infinite iterator")
         return [(Unknown("next"), st)]
     if items:
         # iterators are materialised lists: next() consumes the head
@@ -1673,11 +1715,11 @@ def _hof(I, fn, items: list, st, step) -> list:
 
 
 def b_filter(I, args, kwargs, st, node):
-    fn, items = args[0], iter_values(I, args[1], st) if len(args) > 1 else None
+    fn, items = args[0], iter_values(I, args[1], st, allow_truncated=True) if len(args) > 1 else None
     if items is None:
         st.note("filter over abstract iterable")
         return [(Unknown("filter"), st)]
-    out = st.alloc(HObj("list"))
+    out = st.alloc(HObj("list", cls=TRUNCATED if is_truncated(args[1], st) else ""))
 
     def step(it, v, s):
         def keep(b, s2):
@@ -1693,11 +1735,11 @@ def b_filter(I, args, kwargs, st, node):
 
 
 def b_map(I, args, kwargs, st, node):
-    fn, items = args[0], iter_values(I, args[1], st) if len(args) == 2 else None
+    fn, items = args[0], iter_values(I, args[1], st, allow_truncated=True) if len(args) == 2 else None
     if items is None:
         st.note("map over abstract iterable / several iterables")
         return [(Unknown("map"), st)]
-    out = st.alloc(HObj("list"))
+    out = st.alloc(HObj("list", cls=TRUNCATED if is_truncated(args[1], st) else ""))
 
     def step(it, v, s):
         s.obj(out).items.append(v)
@@ -1707,11 +1749,12 @@ def b_map(I, args, kwargs, st, node):
 
 
 def _ext_takewhile(I, args, kwargs, st, node, drop=False):
-    fn, items = args[0], iter_values(I, args[1], st) if len(args) > 1 else None
+    trunc = len(args) > 1 and is_truncated(args[1], st)
+    fn, items = args[0], iter_values(I, args[1], st, allow_truncated=True) if len(args) > 1 else None
     if items is None:
         st.note("takewhile/dropwhile over abstract iterable")
         return [(Unknown("takewhile"), st)]
-    out = st.alloc(HObj("list"))
+    out = st.alloc(HObj("list", cls=TRUNCATED if (trunc and drop) else ""))
     flag = st.alloc(HObj("list", items=[True]))  # still in the leading run
 
     def step(it, v, s):
@@ -1739,6 +1782,10 @@ def _ext_takewhile(I, args, kwargs, st, node, drop=False):
                 return step(it, None, s)
             return I.bind(I.call(fn, [it], {}, s), lambda v, s2, it=it: step(it, v, s2))
         res = I.bind(res, one)
+    if trunc:
+        for _, s in res:
+            if s.obj(flag).items[0]:
+                s.note("takewhile/dropwhile: the leading run does not end within the modelled prefix of an infinite iterator")
     return [(out, s) for _, s in res]
 
 
@@ -1747,10 +1794,15 @@ def _ext_dropwhile(I, args, kwargs, st, node):
 
 
 def _ext_islice(I, args, kwargs, st, node):
-    items = iter_values(I, args[0], st) if args else None
+    items = iter_values(I, args[0], st, allow_truncated=True) if args else None
     if items is None or not all(a is None or isinstance(a, int) for a in args[1:]):
         st.note("islice over abstract iterable / bounds")
         return [(Unknown("islice"), st)]
+    if is_truncated(args[0], st):
+        sl = slice(*args[1:])
+        if sl.stop is None or sl.stop > len(items):
+            st.note("islice of an infinite iterator beyond the modelled prefix")
+            return [(Unknown("islice"), st)]
     return [(st.alloc(HObj("list", items=list(items)[slice(*args[1:])])), st)]
 
 
@@ -1848,6 +1900,32 @@ def _ext_attrgetter(I, args, kwargs, st, node):
         return [(LambdaV(lam, {}, None), st)]
     st.note("operator.attrgetter with several / dotted names")
     return [(Unknown("attrgetter"), st)]
+
+
+def _ext_count(I, args, kwargs, st, node):
+    """itertools.count(start=0, step=1): the first LAZY_PREFIX values, marked as the prefix of an infinite iterator."""
+    start = args[0] if args else kwargs.get("start", 0)
+    step = args[1] if len(args) > 1 else kwargs.get("step", 1)
+    if isinstance(start, int) and isinstance(step, int) and not isinstance(start, bool):
+        return [(st.alloc(HObj("list", cls=TRUNCATED, items=[start + i * step for i in range(LAZY_PREFIX)])), st)]
+    st.note("itertools.count with abstract start / step")
+    return [(Unknown("count"), st)]
+
+
+def _ext_not(I, args, kwargs, st, node):
+    """operator.not_(x) == not x."""
+    if len(args) != 1:
+        return None
+    out = []
+    for t, s2 in I.truth_fork(args[0], st, None):
+        out.append((not t, s2))
+    return out
+
+
+def _ext_truth(I, args, kwargs, st, node):
+    if len(args) != 1:
+        return None
+    return [(t, s2) for t, s2 in I.truth_fork(args[0], st, None)]
 
 
 def _ext_re_findall(I, args, kwargs, st, node):
@@ -2000,6 +2078,9 @@ EXT_CALLS = {
     "ext:functools.reduce": _ext_reduce,
     "ext:re.findall": _ext_re_findall,
     "ext:operator.attrgetter": _ext_attrgetter,
+    "ext:operator.not_": _ext_not,
+    "ext:itertools.count": _ext_count,
+    "ext:operator.truth": _ext_truth,
     "ext:itertools.chain": _ext_chain,
     "ext:itertools.chain.from_iterable": _ext_chain_from_iterable,
 }
